@@ -4,7 +4,9 @@ pub mod c07;
 pub mod c08;
 pub mod c11;
 pub mod c12;
+pub mod c13;
 pub mod c16;
+pub mod c18;
 pub mod svgcheck;
 
 use crate::report::{Collector, Ctx};
@@ -28,13 +30,21 @@ pub fn run(ctx: &Ctx) -> Option<Collector> {
         "C16" => c16::run(ctx),
         "C10" => basic::c10(ctx),
         "C12" => c12::run(ctx),
+        "C13" => c13::run(ctx),
         "C15" => basic::c15(ctx),
+        "C18" => c18::run(ctx),
         _ => return None,
     })
 }
 
 /// replay of case kinds that belong to one property only
 pub fn replay_other(prop: &str, kind: &str, case: &serde_json::Value) -> Result<Vec<(String, String)>, String> {
+    if kind == "raster" {
+        return c13::replay(case);
+    }
+    if kind == "frame" {
+        return c18::replay(case);
+    }
     if kind.starts_with("svg-") {
         return c12::replay(case);
     }
